@@ -1,10 +1,11 @@
 #!/usr/bin/env python3
-"""usage: tools/import_seed.py Cxx a|b  -- verify a sub-agent's seeded change (tools/verify_seed.sh) and,
+"""usage: tools/import_seed.py Cxx a|b [dest-letter]  -- verify a sub-agent's seeded change (tools/verify_seed.sh) and,
 if confirmed, keep it as /verif/seeded/Cxx-<v>/ (patch.diff, demo/, NOTES.md, meta.json)."""
 import json, os, re, shutil, subprocess, sys
 P, V = sys.argv[1], sys.argv[2]
+D = sys.argv[3] if len(sys.argv) > 3 else V  # round 2 results a/b are kept as -c/-d
 src = "/tmp/mut/%s_result/%s" % (P, V)
-out = subprocess.run(["/verif/tools/verify_seed.sh", P, V], capture_output=True, text=True).stdout
+out = subprocess.run(["/verif/tools/verify_seed.sh", P, V], capture_output=True, text=True, errors="replace").stdout
 m = re.search(r"RESULT \S+: unchanged_rc=(\d+) patched_rc=(\d+) tests_with_patch=(\w+)", out)
 print(out[-900:])
 if not m:
@@ -12,16 +13,16 @@ if not m:
 a, b, t = int(m.group(1)), int(m.group(2)), m.group(3)
 if a != 0 or b == 0 or t != "pass":
     print("NOT CONFIRMED: unchanged_rc=%d patched_rc=%d tests=%s" % (a, b, t)); sys.exit(1)
-dst = "/verif/seeded/%s-%s" % (P, V)
+dst = "/verif/seeded/%s-%s" % (P, D)
 shutil.rmtree(dst, ignore_errors=True)
 os.makedirs(dst)
 shutil.copy(os.path.join(src, "patch.diff"), dst)
 shutil.copytree(os.path.join(src, "demo"), os.path.join(dst, "demo"))
-notes = open(os.path.join(src, "NOTES.md")).read() if os.path.exists(os.path.join(src, "NOTES.md")) else ""
+notes = open(os.path.join(src, "NOTES.md"), errors="replace").read() if os.path.exists(os.path.join(src, "NOTES.md")) else ""
 open(os.path.join(dst, "NOTES.md"), "w").write(notes)
-files = re.findall(r"^\+\+\+ b/(\S+)", open(os.path.join(dst, "patch.diff")).read(), re.M)
+files = re.findall(r"^\+\+\+ b/(\S+)", open(os.path.join(dst, "patch.diff"), errors="replace").read(), re.M)
 meta = {
-    "id": "%s-%s" % (P, V), "property": P, "origin": "fresh sub-agent given only the property text and its own worktree",
+    "id": "%s-%s" % (P, D), "property": P, "origin": "fresh sub-agent given only the property text and its own worktree",
     "files_changed": files,
     "needs_to_manifest": re.sub(r"\s+", " ", notes)[:600],
     "confirmed": {"demo_on_unchanged_code": "pass (rc 0)", "repo_test_suite_with_patch": "pass", "demo_with_patch": "fail (rc %d)" % b,
